@@ -52,6 +52,9 @@ def specialise(F, lm, rule: str, text: str, depth: Optional[int], depth_name: Op
     fi = FuncInfo('%s.t_%s' % (lm.spec.module.name, rule), lm.spec.module, fn, captured=rm.rule.closure)
     t = ('param', fn.args.args[0].arg)
     ov = {('attr', t, 'value'): ('const', text)}
+    import ast as _ast
+    if not any(isinstance(n_, _ast.Attribute) and n_.attr == 'type' and isinstance(n_.ctx, _ast.Store) for n_ in _ast.walk(fn)):
+        ov[('attr', t, 'type')] = ('const', rule)       # as PLY sets it before the rule runs
     if depth is not None and depth_name:
         ov[('attr', ('attr', t, 'lexer'), depth_name)] = ('const', depth)
     return SymExec(F, fi, overrides=ov).run()
